@@ -138,7 +138,10 @@ def run_unit(name, thorough=False, use_cache=True):
         kind = classify(d["message"])
         if kind == "noise": continue
         tags = []; clause_ids = []; spec_span = False; code_refs = []
+        # a span that covers a whole block ("at the end of the function body", a loop body) names no clause:
+        # only spans of at most three lines take part in the attribution
         for s in d["spans"]:
+            if s["l1"] - s["l0"] > 2 and len(d["spans"]) > 1: continue
             for ln in range(s["l0"], s["l1"] + 1):
                 if 1 <= ln <= len(lmap):
                     m = lmap[ln - 1]
@@ -149,11 +152,14 @@ def run_unit(name, thorough=False, use_cache=True):
                         if m.get("tags"):
                             tags += m["tags"]
                             if m.get("clause"): clause_ids.append(m["clause"])
-        if "vacuity" in tags:
+        # a must-fail probe is hit only by an `assertion failed` whose own (single-line) span is the probe line
+        if "vacuity" in tags and d["message"].strip() == "assertion failed" and any(s["l0"] == s["l1"] and s["l0"] in vac_lines for s in d["spans"]):
             for s in d["spans"]:
-                for ln in range(s["l0"], s["l1"] + 1):
-                    if ln in vac_lines: vac_hit.add(ln)
+                if s["l0"] == s["l1"] and s["l0"] in vac_lines: vac_hit.add(s["l0"])
             continue
+        if "vacuity" in tags:
+            tags = [t for t in tags if t != "vacuity"]
+            clause_ids = [c for c in clause_ids if not c.startswith("vac.")]
         if kind == "semantic" and not tags:
             tags = ["support"] if spec_span else ["C04"]
             if not spec_span:
